@@ -58,12 +58,13 @@ def _once(job: dict, hashseed, timeout) -> dict:
         return {"worker_error": "worker crashed: " + (r.stderr or r.stdout)[-800:], "__infra__": "crash"}
 
 
-def run_job(job: dict, hashseed, timeout=240) -> dict:
-    """one retry when the process dies or times out (machine load); a second timeout is reported as the implementation
-    hanging, a second crash without a Python exception is an infrastructure error (no verdict)"""
+def run_job(job: dict, hashseed, timeout=60) -> dict:
+    """one retry when the process dies or times out (machine load; a run of the kit takes 1-3 s of CPU time); a second
+    timeout is reported as the implementation hanging (the index map's collision loop has no bound), a second crash
+    without a Python exception is an infrastructure error (no verdict)"""
     r = _once(job, hashseed, timeout)
     if r.get("__infra__"):
-        r = _once(job, hashseed, timeout * 2)
+        r = _once(job, hashseed, timeout * 2.5)
         if r.get("__infra__") == "crash" and "Error" not in r["worker_error"]:
             raise WholeWorkerInfraError(r["worker_error"])
     return r
